@@ -65,19 +65,21 @@ fn run(case: &Value, enc: &str, chunks: &[&[u8]]) -> Vec<u8> {
 
 
 pub fn run_case(case: &Value) -> Vec<Value> {
-    let enc = s(case, "enc");
+    // `declared` is the spelling sent in the Content-Encoding header, `enc` the codec it names
+    let declared = s(case, "enc");
+    let enc = declared.to_lowercase();
     let body: Vec<u8> = case["doc"].as_array().unwrap().iter().flat_map(|l| l["us"].as_array().unwrap().iter().flat_map(|u| concretise(u.as_str().unwrap())).collect::<Vec<u8>>()).collect();
     let plain_out = run(case, "none", &[&body]);
-    let is_empty = FilterBodyAction::new(filters_of(&case["fs"]), &headers(&enc)).is_empty();
-    let mut ev = json!({"ev": "pipe", "doc": case["doc"], "fs": case["fs"], "enc": enc, "plain_out": lossy(&plain_out), "is_empty": is_empty,
+    let is_empty = FilterBodyAction::new(filters_of(&case["fs"]), &headers(&declared)).is_empty();
+    let mut ev = json!({"ev": "pipe", "doc": case["doc"], "fs": case["fs"], "enc": declared, "plain_out": lossy(&plain_out), "is_empty": is_empty,
                         "body": lossy(&body)});
     let supported = enc == "gzip" || enc == "deflate" || enc == "br";
     if !supported {
         // the chain must be inert: whatever bytes arrive leave untouched
         let junk: Vec<u8> = compress("gzip", 6, &body);
-        let o1 = run(case, &enc, &[&junk]);
+        let o1 = run(case, &declared, &[&junk]);
         let pieces: Vec<&[u8]> = junk.chunks(3).collect();
-        let o2 = run(case, &enc, &pieces);
+        let o2 = run(case, &declared, &pieces);
         ev["untouched"] = json!(enc == "none" || (o1 == junk && o2 == junk));
         ev["runs"] = json!(2);
         ev["diffs"] = json!([]);
@@ -88,6 +90,8 @@ pub fn run_case(case: &Value) -> Vec<Value> {
     let mut runs = 0u64;
     let mut note = |kind: &str, level: u32, cut: usize, out: Vec<u8>, diffs: &mut Vec<Value>| {
         let (dec, ok) = decompress(&enc, &out);
+        // a complete stream of the encoding is never empty, even for an empty body
+        let ok = ok && !out.is_empty();
         if dec != plain_out || !ok {
             if diffs.len() < 20 {
                 diffs.push(json!({"kind": kind, "level": level, "cut": cut, "decoded": lossy(&dec), "complete": ok}));
@@ -98,19 +102,19 @@ pub fn run_case(case: &Value) -> Vec<Value> {
     };
     for level in levels {
         let comp = compress(&enc, level, &body);
-        note("whole", level, 0, run(case, &enc, &[&comp]), &mut diffs);
+        note("whole", level, 0, run(case, &declared, &[&comp]), &mut diffs);
         runs += 1;
         let step = if comp.len() > 300 { comp.len() / 150 + 1 } else { 1 };
         let mut c = 1;
         while c < comp.len() {
-            note("cut", level, c, run(case, &enc, &[&comp[..c], &comp[c..]]), &mut diffs);
+            note("cut", level, c, run(case, &declared, &[&comp[..c], &comp[c..]]), &mut diffs);
             runs += 1;
             c += step;
         }
         let one: Vec<&[u8]> = comp.chunks(1).collect();
-        note("byte1", level, 1, run(case, &enc, &one), &mut diffs);
+        note("byte1", level, 1, run(case, &declared, &one), &mut diffs);
         let seven: Vec<&[u8]> = comp.chunks(7).collect();
-        note("stride7", level, 7, run(case, &enc, &seven), &mut diffs);
+        note("stride7", level, 7, run(case, &declared, &seven), &mut diffs);
         let empty: &[u8] = &[];
         let mut inter: Vec<&[u8]> = Vec::new();
         for p in comp.chunks(5) {
@@ -118,7 +122,7 @@ pub fn run_case(case: &Value) -> Vec<Value> {
             inter.push(p);
         }
         inter.push(empty);
-        note("empties", level, 5, run(case, &enc, &inter), &mut diffs);
+        note("empties", level, 5, run(case, &declared, &inter), &mut diffs);
         runs += 3;
     }
     ev["runs"] = json!(runs);
